@@ -34,12 +34,18 @@ func NewPermission(addr net.Addr, log logging.LeveledLogger, timeout time.Durati
 
 func (p *Permission) start(lifetime time.Duration) {
 	p.lifetimeTimer = time.AfterFunc(lifetime, func() {
-		p.allocation.RemovePermission(p.Addr)
+		p.allocation.removeExpiredPermission(p)
 	})
 }
 
-func (p *Permission) refresh(lifetime time.Duration) {
-	if !p.lifetimeTimer.Reset(lifetime) {
-		p.log.Errorf("Failed to reset permission timer for %v %v", p.Addr, p.allocation.fiveTuple)
+// refresh re-arms the timer. It reports false if the timer has already fired: the
+// permission has expired then, even if its removal is still waiting for the allocation's
+// lock, and must not be used any more.
+func (p *Permission) refresh(lifetime time.Duration) bool {
+	if p.lifetimeTimer.Reset(lifetime) {
+		return true
 	}
+	p.lifetimeTimer.Stop()
+
+	return false
 }
